@@ -13,6 +13,7 @@ import "github.com/q191201771/lal/pkg/base"
 type RtpUnpackerRaw struct {
 	payloadType base.AvPacketPt
 	clockRate   int
+	tsExtender  rtpTimestampExtender
 	onAvPacket  OnAvPacket
 }
 
@@ -38,7 +39,7 @@ func (unpacker *RtpUnpackerRaw) TryUnpackOne(list *RtpPacketList) (unpackedFlag 
 	b := p.Packet.Body()
 	var outPkt base.AvPacket
 	outPkt.PayloadType = unpacker.payloadType
-	outPkt.Timestamp = rtpTimestamp2Ms(p.Packet.Header.Timestamp, unpacker.clockRate)
+	outPkt.Timestamp = unpacker.tsExtender.toMs(p.Packet.Header.Timestamp, unpacker.clockRate)
 	outPkt.Payload = b
 	unpacker.onAvPacket(outPkt)
 
